@@ -2,6 +2,7 @@
 mod abs;
 mod conn;
 mod frames;
+mod net;
 
 use std::{
     collections::HashMap,
@@ -135,6 +136,84 @@ fn cmd_conn_trace(a: &HashMap<String, String>) -> i32 {
     0
 }
 
+/// net-replay --in behaviours.ndjson : udp / ws behaviours from TLC on real loopback sockets
+fn cmd_net_replay(a: &HashMap<String, String>) -> i32 {
+    let path = a.get("in").expect("--in");
+    let seed: u64 = a.get("seed").and_then(|s| s.parse().ok()).unwrap_or(1);
+    let stride: usize = a.get("stride").and_then(|s| s.parse().ok()).unwrap_or(1).max(1);
+    let f = std::fs::File::open(path).expect("open behaviours");
+    let pools: Vec<Arc<frames::Pool>> = vec![Arc::new(frames::Pool::new("C")), Arc::new(frames::Pool::new("U"))];
+    let (mut n, mut ok, mut skipped, mut bad) = (0u64, 0u64, 0u64, 0u64);
+    let out = std::io::stdout();
+    let mut out = out.lock();
+    for (lineno, line) in std::io::BufReader::new(f).lines().enumerate() {
+        let line = line.unwrap();
+        if line.trim().is_empty() || (lineno + seed as usize) % stride != 0 {
+            continue;
+        }
+        let v: Value = serde_json::from_str(&line).expect("behaviour json");
+        let cfg = &v["cfg"];
+        let transport = cfg["transport"].as_str().unwrap_or("udp").to_string();
+        if transport == "stream" {
+            continue;
+        }
+        let steps = conn::parse_steps(&v["steps"]);
+        let plan = net::plan_from_steps(&steps);
+        let pool = pools[lineno % 2].clone(); // alternate the size mode
+        let s = net::Session {
+            transport,
+            flavor: cfg["flavor"].as_str().unwrap_or("tokio").to_string(),
+            mode: pool.mode.clone(),
+            verify: cfg["verify"].as_bool().unwrap_or(false),
+            plan,
+        };
+        n += 1;
+        let r = net::run(pool.clone(), &s, seed + lineno as u64);
+        if r.skipped.is_some() {
+            skipped += 1;
+        } else if let Some(m) = r.mismatch {
+            bad += 1;
+            let _ = writeln!(out, "{}", json!({"mismatch": m, "line": lineno + 1, "mode": s.mode, "flavor": s.flavor, "verify": s.verify, "behaviour": v, "events": r.events}));
+        } else {
+            ok += 1;
+        }
+    }
+    let _ = writeln!(out, "{}", json!({"summary": {"executed": n, "ok": ok, "skipped": skipped, "mismatch": bad}}));
+    0
+}
+
+/// net-trace --transport udp|ws --out file --seed n --sessions k --bytes b [--writes 1]
+fn cmd_net_trace(a: &HashMap<String, String>) -> i32 {
+    let out = a.get("out").expect("--out");
+    let transport = a.get("transport").cloned().unwrap_or_else(|| "udp".into());
+    let seed: u64 = a.get("seed").and_then(|s| s.parse().ok()).unwrap_or(1);
+    let sessions: u64 = a.get("sessions").and_then(|s| s.parse().ok()).unwrap_or(4);
+    let bytes: usize = a.get("bytes").and_then(|s| s.parse().ok()).unwrap_or(20000);
+    let writes = a.get("writes").map(|s| s == "1").unwrap_or(false);
+    let pools: Vec<Arc<frames::Pool>> = vec![Arc::new(frames::Pool::new("C")), Arc::new(frames::Pool::new("U"))];
+    let mut w = std::io::BufWriter::new(std::fs::File::create(out).expect("create trace"));
+    let mut total = 0usize;
+    for sn in 0..sessions {
+        let flavor = if transport == "ws" || sn % 2 == 1 { "tokio" } else { "blocking" };
+        let pool = pools[((sn / 2) % 2) as usize].clone();
+        let sd = seed.wrapping_mul(1000).wrapping_add(sn);
+        let s = net::Session {
+            transport: transport.clone(),
+            flavor: flavor.to_string(),
+            mode: pool.mode.clone(),
+            verify: sn % 3 == 0,
+            plan: net::random_plan(&transport, &pool, sd, bytes, writes),
+        };
+        let r = net::run(pool, &s, sd);
+        for e in r.events {
+            total += 1;
+            let _ = writeln!(w, "{}", e);
+        }
+    }
+    println!("{}", json!({"events": total, "sessions": sessions}));
+    0
+}
+
 /// conn-sweep --what tiny|version --out file
 fn cmd_conn_sweep(a: &HashMap<String, String>) -> i32 {
     let out = a.get("out").expect("--out");
@@ -166,6 +245,8 @@ fn main() {
         "conn-replay" => cmd_conn_replay(&a),
         "conn-trace" => cmd_conn_trace(&a),
         "conn-sweep" => cmd_conn_sweep(&a),
+        "net-replay" => cmd_net_replay(&a),
+        "net-trace" => cmd_net_trace(&a),
         _ => {
             eprintln!("usage: lfsverif <command> ...");
             2
